@@ -147,7 +147,7 @@ def classify_and_run(rep, drv, rnd, d: Path, nodes, flag, want_blocker, stats, m
     rs_keys = [k for k in required if rnd.random() < 0.5]
     cli_keys = [k for k in required if k not in rs_keys]
     bad_at = rnd.randrange(n_runs) if any(n["processor"] == "TFailIf" for n in nodes) and rnd.random() < 0.6 else None
-    ctxmap = {k: [f"rs_{k}_{j}" for j in range(n_runs)] for k in rs_keys}
+    ctxmap = {k: [("/dev/null" if k == "path" else f"rs_{k}_{j}") for j in range(n_runs)] for k in rs_keys}
     if any(n["processor"] == "TFailIf" for n in nodes) and "bad" not in required:
         ctxmap["bad"] = ["boom" if j == bad_at else f"fine{j}" for j in range(n_runs)]
     elif "bad" in ctxmap:
@@ -184,7 +184,7 @@ def classify_and_run(rep, drv, rnd, d: Path, nodes, flag, want_blocker, stats, m
         blocker = "capExceeded"
     args = []
     for k in cli_keys:
-        args += ["--context", f"{k}=cli_{k}"]
+        args += ["--context", f"{k}=" + ("/dev/null" if k == "path" else f"cli_{k}")]
     if blocker == "capExceeded":
         if rnd.random() < 0.5:
             rs["max_runs"] = 10
@@ -223,7 +223,7 @@ def classify_and_run(rep, drv, rnd, d: Path, nodes, flag, want_blocker, stats, m
     else:
         # ---- executed invocation: documented outcomes from standalone runs --------------------------------
         plan = c09.plan_of(rs, d) if rs is not None else [{}]
-        cli_ctx = {k: f"cli_{k}" for k in cli_keys}
+        cli_ctx = {k: ("/dev/null" if k == "path" else f"cli_{k}") for k in cli_keys}
         launch_sink = o["sink"]
         clean(d)
         outcomes = []
